@@ -234,6 +234,61 @@ static int op_karasub(int argc, tok_t *a, out_t *o) {
 #endif
 }
 
+/* mpn_mod_1_k (k = 1,2,3): {rem,2} = a two-limb value congruent to {xp,xn} mod d, from the table db[i] = B^(i+1) mod d that
+   the wrappers in divrem_euclidean_r_1.c build.  Preconditions as there: xn >= k+2; d-1 <= B/2 (k=1), d <= B/3+1 (k=2), d <= B/4+1 (k=3). */
+typedef void (*mod1k_t)(mp_ptr, mp_srcptr, mp_size_t, mp_srcptr);
+static int do_mod_1_k(mod1k_t f, int k, int argc, tok_t *a, out_t *o) {
+  NEED(argc == 2 && V(0) && N(1) && a[0].n >= k + 2); mp_limb_t d = tok_ulong(&a[1]), db[4], lim = k == 1 ? GMP_LIMB_HIGHBIT + 1 : k == 2 ? MP_LIMB_T_MAX / 3 + 1 : GMP_LIMB_HIGHBIT / 2 + 1;
+  NEED(d >= 1 && d <= lim);
+  unsigned __int128 p = 1; for (int i = 0; i < 4; i++) { p = (p << 64) % d; db[i] = (mp_limb_t) p; }
+  mp_limb_t *rem = dst_new(2); f(rem, a[0].d, a[0].n, db); out_vec(o, rem, 2); FIN(rem, 2); return 0;
+}
+static int op_mod_1_1(int c, tok_t *a, out_t *o) { return do_mod_1_k(mpn_mod_1_1, 1, c, a, o); }
+static int op_mod_1_2(int c, tok_t *a, out_t *o) { return do_mod_1_k(mpn_mod_1_2, 2, c, a, o); }
+static int op_mod_1_3(int c, tok_t *a, out_t *o) { return do_mod_1_k(mpn_mod_1_3, 3, c, a, o); }
+/* Hensel (2-adic) division by an odd limb: {xp,n} = {qp,n}*d - ret*B^n; mode 0 separate / 1 in place */
+static int op_hensel_qr_1_1(int argc, tok_t *a, out_t *o) {
+  NEED(argc == 3 && N(2) && (tok_ulong(&a[2]) & 1)); argc = 2; { ARGS2; c = mpn_divrem_hensel_qr_1_1(rp, up, n, tok_ulong(&a[2])); RET3; }
+}
+static int op_hensel_qr_1_2(int argc, tok_t *a, out_t *o) {
+  NEED(argc == 3 && N(2) && (tok_ulong(&a[2]) & 1) && V(1) && a[1].n >= 2); argc = 2; { ARGS2; c = mpn_divrem_hensel_qr_1_2(rp, up, n, tok_ulong(&a[2])); RET3; }
+}
+static int op_hensel_r_1(int argc, tok_t *a, out_t *o) {
+  NEED(argc == 2 && V(0) && N(1) && a[0].n >= 1 && (tok_ulong(&a[1]) & 1)); out_ulong(o, mpn_divrem_hensel_r_1(a[0].d, a[0].n, tok_ulong(&a[1]))); return 0;
+}
+/* the same with the quotient shifted right by s bits and a carry-in limb subtracted first: tokens mode [x] d s cin */
+static int op_rsh_hensel_qr_1_1(int argc, tok_t *a, out_t *o) {
+  NEED(argc == 5 && N(2) && N(3) && N(4) && (tok_ulong(&a[2]) & 1) && tok_ulong(&a[3]) <= 63); argc = 2;
+  { ARGS2; c = mpn_rsh_divrem_hensel_qr_1_1(rp, up, n, tok_ulong(&a[2]), (int) tok_ulong(&a[3]), tok_ulong(&a[4])); RET3; }
+}
+static int op_rsh_hensel_qr_1_2(int argc, tok_t *a, out_t *o) {
+  NEED(argc == 5 && N(2) && N(3) && N(4) && (tok_ulong(&a[2]) & 1) && tok_ulong(&a[3]) <= 63 && V(1) && a[1].n >= 2); argc = 2;
+  { ARGS2; c = mpn_rsh_divrem_hensel_qr_1_2(rp, up, n, tok_ulong(&a[2]), (int) tok_ulong(&a[3]), tok_ulong(&a[4])); RET3; }
+}
+/* mpn_lshift3..6: shipped for k8 only, entry point is the plain symbol (not renamed by asm-defs.m4, not declared anywhere) */
+#define LSHK(K) static int op_lshift##K(int argc, tok_t *a, out_t *o) { ARGS2; c = mpn_lshift##K(rp, up, n); RET3; }
+#if HAVE_NATIVE_mpn_lshift3
+mp_limb_t mpn_lshift3(mp_ptr, mp_srcptr, mp_size_t);
+#else
+#define mpn_lshift3(r, u, n) mpn_lshift(r, u, n, 3)
+#endif
+#if HAVE_NATIVE_mpn_lshift4
+mp_limb_t mpn_lshift4(mp_ptr, mp_srcptr, mp_size_t);
+#else
+#define mpn_lshift4(r, u, n) mpn_lshift(r, u, n, 4)
+#endif
+#if HAVE_NATIVE_mpn_lshift5
+mp_limb_t mpn_lshift5(mp_ptr, mp_srcptr, mp_size_t);
+#else
+#define mpn_lshift5(r, u, n) mpn_lshift(r, u, n, 5)
+#endif
+#if HAVE_NATIVE_mpn_lshift6
+mp_limb_t mpn_lshift6(mp_ptr, mp_srcptr, mp_size_t);
+#else
+#define mpn_lshift6(r, u, n) mpn_lshift(r, u, n, 6)
+#endif
+LSHK(3) LSHK(4) LSHK(5) LSHK(6)
+
 /* ---------------------------------------------------------------- value level (threshold-steered entry points) */
 static int op_v_mul(int argc, tok_t *a, out_t *o) {
   NEED(argc == 2 && V(0) && V(1) && a[0].n >= a[1].n && a[1].n >= 1); long un = a[0].n, vn = a[1].n; mp_limb_t *rp = dst_new(un + vn);
@@ -315,6 +370,10 @@ const opdef_t ops_c14[] = {
   {"k_add_err1_n", op_add_err1_n}, {"k_sub_err1_n", op_sub_err1_n}, {"k_add_err2_n", op_add_err2_n}, {"k_sub_err2_n", op_sub_err2_n},
   {"k_divexact_byff", op_divexact_byff}, {"k_divexact_byfobm1", op_divexact_byfobm1}, {"k_redc_1", op_redc_1},
   {"k_karaadd", op_karaadd}, {"k_karasub", op_karasub},
+  {"k_mod_1_1", op_mod_1_1}, {"k_mod_1_2", op_mod_1_2}, {"k_mod_1_3", op_mod_1_3},
+  {"k_divrem_hensel_qr_1_1", op_hensel_qr_1_1}, {"k_divrem_hensel_qr_1_2", op_hensel_qr_1_2}, {"k_divrem_hensel_r_1", op_hensel_r_1},
+  {"k_rsh_divrem_hensel_qr_1_1", op_rsh_hensel_qr_1_1}, {"k_rsh_divrem_hensel_qr_1_2", op_rsh_hensel_qr_1_2},
+  {"k_lshift3", op_lshift3}, {"k_lshift4", op_lshift4}, {"k_lshift5", op_lshift5}, {"k_lshift6", op_lshift6},
   {"c14_mul", op_v_mul}, {"c14_mul_n", op_v_mul_n}, {"c14_sqr", op_v_sqr}, {"c14_mullow_n", op_v_mullow_n}, {"c14_tdiv_qr", op_v_tdiv_qr},
   {"c14_divrem_1", op_v_divrem_1}, {"c14_mod_1", op_v_mod_1}, {"c14_divexact_1", op_v_divexact_1},
   {"c14_gcd", op_v_gcd}, {"c14_gcdext", op_v_gcdext}, {"c14_powm", op_v_powm}, {"c14_divexact", op_v_divexact},
